@@ -4,10 +4,80 @@
 //    The closure text itself still comes from /repo (the unit only re-brackets the call with two token substitutions).
 //  * EMPTY_ARR_CID (runtime/src/runtime/empty.rs): the CID every actor's state root has before its constructor ran. An opaque token;
 //    nothing is assumed about it except that it is a fixed value.
-//  * `<&Store as Clone>::clone`: copying a shared reference to the blockstore.
+//  * EthAddress and the two conversions U256 -> EthAddress -> Address used by SELFDESTRUCT: opaque deterministic functions.
 macro_rules! vx_is_some_and {
     ($o:expr, (|$t:ident| $b:expr)) => { match $o { Some($t) => $b, None => false } };
 }
 verus! {
 pub const EMPTY_ARR_CID: Cid = Cid { h: 0 };
+
+#[derive(Clone, Copy, PartialEq, Eq, Structural)]
+pub struct EthAddress(pub [u8; 20]);
+/// actors/evm/shared/src/address.rs `impl From<U256> for EthAddress`: the low 20 bytes of the word. Opaque, deterministic.
+pub uninterp spec fn eth_of_word(w: U256) -> EthAddress;
+impl vstd::std_specs::convert::FromSpecImpl<U256> for EthAddress {
+    open spec fn obeys_from_spec() -> bool { true }
+    open spec fn from_spec(w: U256) -> EthAddress { eth_of_word(w) }
+}
+impl From<U256> for EthAddress {
+    #[verifier::external_body]
+    fn from(w: U256) -> (r: EthAddress) { unimplemented!() }
+}
+/// EthAddress::as_id: Some(id) exactly for the masked-ID form 0xff ‖ 0^11 ‖ id (proved on the real code by Kani, C20). Opaque here.
+pub uninterp spec fn eth_as_id(a: EthAddress) -> Option<ActorID>;
+impl EthAddress {
+    #[verifier::external_body]
+    pub fn as_id(&self) -> (r: Option<ActorID>) ensures r == eth_as_id(*self) { unimplemented!() }
+}
+/// `RawBytes -> Vec<u8>` (`.into()`): the bytes of the handle. Opaque, deterministic.
+impl vstd::std_specs::convert::FromSpecImpl<RawBytes> for Vec<u8> {
+    open spec fn obeys_from_spec() -> bool { true }
+    uninterp spec fn from_spec(b: RawBytes) -> Vec<u8>;
+}
+pub open spec fn raw_bytes_of(b: RawBytes) -> Seq<u8> { <Vec<u8> as vstd::std_specs::convert::FromSpec<RawBytes>>::from_spec(b)@ }
+impl From<RawBytes> for Vec<u8> {
+    #[verifier::external_body]
+    fn from(b: RawBytes) -> (r: Vec<u8>) { unimplemented!() }
+}
+/// actors/evm/shared/src/address.rs `impl From<EthAddress> for Address`: the ID address for a masked-ID (0xff..) address, else the
+/// f4 address in the EAM namespace. Opaque, deterministic.
+pub uninterp spec fn fil_of_eth(a: EthAddress) -> Address;
+impl vstd::std_specs::convert::FromSpecImpl<EthAddress> for Address {
+    open spec fn obeys_from_spec() -> bool { true }
+    open spec fn from_spec(a: EthAddress) -> Address { fil_of_eth(a) }
+}
+impl From<EthAddress> for Address {
+    #[verifier::external_body]
+    fn from(a: EthAddress) -> (r: Address) { unimplemented!() }
+}
+
+/// runtime/src/dispatch.rs WithCodec<T, CODEC>: a transparent wrapper choosing the return codec; `.into()` wraps
+pub const DAG_CBOR: u64 = 0x71;
+pub struct WithCodec<T, const CODEC: u64>(pub T);
+impl<T, const CODEC: u64> vstd::std_specs::convert::FromSpecImpl<T> for WithCodec<T, CODEC> {
+    open spec fn obeys_from_spec() -> bool { true }
+    open spec fn from_spec(v: T) -> WithCodec<T, CODEC> { WithCodec(v) }
+}
+impl<T, const CODEC: u64> From<T> for WithCodec<T, CODEC> {
+    fn from(v: T) -> (r: WithCodec<T, CODEC>) { WithCodec(v) }
+}
+/// `U256::default()` is zero (uint crate: `impl Default` = all limbs 0), used by `.unwrap_or_default()` in System::get_storage
+impl Default for U256 {
+    #[verifier::external_body]
+    fn default() -> (r: U256) ensures r@ == 0 { unimplemented!() }
+}
+/// `<[T]>::to_vec`: an element-wise clone (for `u8`: a copy)
+pub assume_specification<T: Clone>[<[T]>::to_vec](s: &[T]) -> (r: Vec<T>)
+    ensures r@.len() == s@.len(), forall|i: int| 0 <= i < s@.len() ==> call_ensures(T::clone, (&#[trigger] s@[i],), r@[i]),
+        // (sequence extensionality, stated here so that callers need no proof step)
+        (forall|i: int| 0 <= i < s@.len() ==> r@[i] == s@[i]) ==> r@ == s@;
+/// caller set given as an array of references (`rt.validate_immediate_caller_is([&a])`, EVM GetStorageAt): the set of the referenced addresses
+impl<'a, const N: usize> CallerAddrs for [&'a Address; N] {
+    #[verifier::prophetic]
+    open spec fn addrs(self) -> vstd::set::Set<Address> { self@.map_values(|x: &Address| *x).to_set() }
+}
+/// actors/evm/src/state.rs BytecodeHash::EMPTY = keccak256(""): a fixed opaque value
+impl BytecodeHash {
+    pub const EMPTY: BytecodeHash = BytecodeHash { h: 0 };
+}
 } // verus!
